@@ -6,7 +6,24 @@ Every line is answered three ways: by the implementation (the text after `=>`), 
 backend (`GV.Store.PM` over the model files / leaf set / prune list) and – where the property
 fixes the value – by the **reference**: an unpruned Vec MMR (`GV.Pmmr.push`) over the same leaf
 history plus the set of unspent leaf positions.  Implementation ≠ reference is a `FAIL`
-(the property's oracle violated on a concrete history); implementation ≠ model is a `DIFF`. -/
+(the property's oracle violated on a concrete history); implementation ≠ model is a `DIFF`.
+
+Which lines are spec-compared (`cmp2`: reference first) and why the reference value is the value
+the property fixes – `Props/C08.lean`, for every history satisfying `RefSt.Proto`:
+* `push` / `rewind` (resulting size), `usize` (synced states): `history_preserves_reference`, size
+  and `unprunedSize` clauses;
+* `prune` (was the leaf unspent), `leaves`, `nleaves`: unspent-set clause (the reference steps its
+  set exactly as `RefSt.step`: `push` adds the new leaf, `prune` removes, `rewind N' rm` =
+  `(unspent ∩ < mmr N') ∪ rm`);
+* `root`: root clause; `data`, `hash`, `leafobs`: hash/data clause for unspent leaves (and `None`
+  for spent leaves: `getHash`/`getData` test the leaf set first);
+* `proof`: `history_merkle_proofs` (whole proof value of unspent leaves; refused for spent ones);
+* `file`, `node`: only the part the property fixes – the positions the reference still needs
+  (peaks, Merkle-path siblings of unspent leaves: path/peak clauses) must not read `None` and must
+  read the reference hash; which other positions read `None` is internal (`cmpModel`).
+`cmpModel` only: `usize_mid` (inside a unit the theorem says nothing about `unpruned_size`),
+`sizes`, `prunelist`, the `pl_*` stream, the acknowledgements of `new`/`sync`/`discard`/
+`compact`/`reopen`, and the whole out-of-protocol `x*` stream. -/
 namespace GV.Drv.StoreD
 open GV GV.Pmmr GV.Store GV.Drv
 
@@ -27,8 +44,6 @@ structure Ref where
   datas : List Bytes := []
   /-- unspent leaf positions (0-based), ascending -/
   unspent : List Nat := []
-  /-- committed block boundaries on the current history: (size, unspent set then) -/
-  snaps : List (Nat × List Nat) := []
 
 structure St where
   pm : PM Bytes := {}
@@ -67,17 +82,14 @@ def push (r : Ref) (e : Bytes) : Option Ref :=
 
 def isUnspent (r : Ref) (p : Nat) : Bool := r.unspent.elem p
 
+/-- the reference semantics of `rewind` (`RefSt.step` of Lemmas/StoreHistory): the leaf history is
+truncated, the unspent set is the old one below the boundary plus the re-added leaves.  (Several
+committed boundaries can have the same size – units that only remove – so the boundary is not a
+function of the size.) -/
 def rewind (r : Ref) (size : Nat) (rm1 : List Nat) : Ref :=
   let size := roundUpToLeafPos size
-  let unspent := match r.snaps.find? (·.1 == size) with
-    | some s => s.2
-    | none => Bm.or (r.unspent.filter (· < size)) (rm1.map (· - 1))
-  { hashes := r.hashes.take size, datas := r.datas.take (nLeaves size), unspent := unspent,
-    snaps := r.snaps.filter (·.1 ≤ size) }
-
-def commit (r : Ref) : Ref :=
-  let size := r.hashes.length
-  { r with snaps := r.snaps.filter (·.1 < size) ++ [(size, r.unspent)] }
+  { hashes := r.hashes.take size, datas := r.datas.take (nLeaves size),
+    unspent := Bm.or (r.unspent.filter (· < size)) (rm1.map (· - 1)) }
 
 def dataAt (r : Ref) (p : Nat) : Option Bytes :=
   match pmmrLeafToInsertionIndex p with
@@ -132,8 +144,7 @@ def handle (st : St) (args : List String) (impl : String) : St × Verdict :=
       ({ st with ref := r, pm := pm }, cmp2 (toString r.hashes.length) (toString pm.size) impl)
     | _, _ => (st, .unknown)
   | ["sync"] =>
-    let r := st.ref.commit
-    ({ st with pm := { st.pm with b := st.pm.b.sync }, ref := r, refC := r, sizeC := st.pm.size }, cmpModel "ok" impl)
+    ({ st with pm := { st.pm with b := st.pm.b.sync }, refC := st.ref, sizeC := st.pm.size }, cmpModel "ok" impl)
   | ["discard"] =>
     ({ st with pm := { b := st.pm.b.discard, size := st.sizeC }, ref := st.refC }, cmpModel "ok" impl)
   | ["compact", cutoff, rm] => match nat? cutoff, parseNatList rm with
@@ -200,7 +211,12 @@ def handle (st : St) (args : List String) (impl : String) : St × Verdict :=
   -- internal observables (model only)
   | ["usize_mid"] => (st, cmpModel (toString st.pm.b.unprunedSize) impl)
   | ["node", p] => match nat? p with
-    | some p => (st, cmpModel (showOptHex (st.pm.getHash p)) impl)
+    | some p =>
+      let model := showOptHex (st.pm.getHash p)
+      -- a position the reference still needs must read the reference hash
+      if p < st.ref.hashes.length && !isLeaf p && (neededPos st.ref.hashes.length st.ref.unspent).elem p then
+        (st, cmp2 (showOptHex st.ref.hashes[p]?) model impl)
+      else (st, cmpModel model impl)
     | none => (st, .unknown)
   | ["sizes"] =>
     (st, cmpModel s!"{st.pm.b.hashSize} {st.pm.b.dataSize} {st.pm.b.pruneList.bitmap.length}" impl)
@@ -211,6 +227,12 @@ def handle (st : St) (args : List String) (impl : String) : St × Verdict :=
     let nones := vals.filterMap fun x => if x.2.isNone then some x.1 else none
     let cat := vals.flatMap fun x => x.2.getD []
     let model := s!"{showNatList nones} {toHex (h256 cat)}"
+    -- the implementation's own list of `None` positions must not contain a needed position
+    let implNones := (parseNatList ((impl.splitOn " ").headD "")).getD []
+    let needed := neededPos st.ref.hashes.length st.ref.unspent
+    match needed.find? (fun p => implNones.elem p) with
+    | some p => (st, .fail s!"position {p} is needed by the reference but reads None")
+    | none =>
     if model ≠ impl then (st, .diff model) else
     -- the implementation's answers are the model's; check them against the reference
     let bad := vals.find? fun x => match x.2 with
